@@ -88,19 +88,22 @@ def setup_dates(tree, heterochronous=False):
 def initialize_dates_from_taxa(tree, taxa, tag='date'):
     dates = [taxon[tag] for taxon in taxa]
     max_date = max(dates)
+    # a leaf's index is not the position of its taxon when the tree was parsed
+    # with use_postorder_indices: look the date up by taxon
+    dates_by_id = {taxon.id: taxon[tag] for taxon in taxa}
 
     # parse dates
     if max_date != 0.0:
         # time starts at 0
         if min(dates) == 0.0:
             for node in tree.leaf_node_iter():
-                node.date = taxa[node.index][tag]
+                node.date = dates_by_id[node.taxon.label]
                 node.original_date = node.date
         # time is a year
         else:
             for node in tree.leaf_node_iter():
-                node.date = max_date - taxa[node.index][tag]
-                node.original_date = taxa[node.index][tag]
+                node.date = max_date - dates_by_id[node.taxon.label]
+                node.original_date = dates_by_id[node.taxon.label]
     else:
         for node in tree.leaf_node_iter():
             node.date = 0.0
@@ -366,14 +369,17 @@ class TimeTreeModel(AbstractTreeModel):
         dates = [taxon['date'] for taxon in self._taxa]
         max_date = max(dates)
 
+        # a leaf is indexed by the position of its taxon in the taxa unless the
+        # tree was parsed with use_postorder_indices: look the date up by taxon
+        dates_by_id = {taxon.id: taxon['date'] for taxon in self._taxa}
         # time starts at 0
         if min(dates) == 0.0:
-            for idx, taxon in enumerate(self._taxa):
-                leaf_heights[idx] = taxon['date']
+            for node in self.tree.leaf_node_iter():
+                leaf_heights[node.index] = dates_by_id[node.taxon.label]
         # time is a year
         else:
-            for idx, taxon in enumerate(self._taxa):
-                leaf_heights[idx] = max_date - taxon['date']
+            for node in self.tree.leaf_node_iter():
+                leaf_heights[node.index] = max_date - dates_by_id[node.taxon.label]
 
         self.sampling_times = torch.tensor(leaf_heights)
 
